@@ -18,7 +18,7 @@ CHECKS = {
         "sequences, nested sequences, sets, quantities, sequences of hash-equal elements of different types (1, 1.0, "
         "True), long sequences/strings that force line wrapping) with ONE symbolic leaf: every string of length "
         "0-2 (quick; 0-3 thorough; 'single' shape one longer) over the dialect's alphabet, an integer |i| <= 10^3/10^6, "
-        "a finite float in positional repr form or of an exponent-form shape (both signs, magnitudes on both sides of the "
+        "a quantity whose value is such a string, a finite float in positional repr form or of an exponent-form shape (both signs, magnitudes on both sides of the "
         "points where repr() switches notation), dates/times/datetimes with all fields symbolic, strings shaped like "
         "numbers and times, strings spelling each aggregation keyword of any grammar in every letter case; in the thorough tier also a module of 121 blocks and one nested 110 levels deep; 14 encoder configurations (indent, width incl. SYMBOLIC widths in [30,100] and in [1,14] - "
         "every statement longer than the line - running the stdlib textwrap on proxies, newline, end-name, delimiter, "
@@ -103,10 +103,10 @@ CHECKS = {
         "allowed. Outside: corpus files, longer values.",
    ref='5 (C07)', technique='symbolic execution (symx) of loads/dumps/loads/dumps on templates with symbolic parts; z3'),
  'C08': dict(
-   text="Bounded symbolic execution of the real default loader on 16 label templates (top level, inside blocks, first/"
+   text="Bounded symbolic execution of the real default loader on 19 label templates (top level, inside blocks, first/"
         "last in a block, before a block, adjacent gaps, with delimiters, with/without END, up to 5 assignments, "
         "comments containing '=' and line ends before/between/directly after the statements, a multi-line quoted "
-        "string before the gaps): "
+        "string before the gaps, repeated names, names and values that spell the keywords NULL/TRUE/FALSE): "
         "EVERY subset of assignments has its value removed (solver-chosen) and EVERY inter-token gap is a symbolic "
         "member of {blank, TAB, CR, LF}, so pvl's linecount/rfind arithmetic runs on the symbolic text; one path "
         "typically covers all 4^k layouts of a removal pattern. Assertions: every statement present in order, each "
@@ -178,7 +178,8 @@ CHECKS = {
         "PVLGroup -> PVLObject with identical content at the same position for PDS3; a refusal must not have "
         "changed the argument either. Interleaved: encoder A, another dialect's encoder B, A again (same and fresh "
         "instance) on a module whose strings the solver picks from 28 words the dialects treat differently: the three A "
-        "texts are identical. Outside: modules beyond the listed shapes.",
+        "texts are identical. Shared: ONE encoder instance dumps labels A, B, A that the solver assembles out of 8 layouts "
+        "over the SAME group/object instances; each text equals a fresh encoder's. Outside: modules beyond the listed shapes.",
    ref='5 (C13)', technique='symbolic execution (symx) of the encoders with before/after snapshots; z3; bounded'),
  'C14': dict(
    text="Bounded symbolic execution of the real decode_datetime/encode_time code with ALL field values symbolic. "
@@ -189,7 +190,8 @@ CHECKS = {
         "and zone (Z -> UTC, ODL offset -> that offset, unmarked -> UTC in PVL/ISIS/PDS3/default and naive in ODL, "
         "seconds = 60 -> text in PVL/ISIS/default and rejected by ODL/PDS3, PDS3 rejects offsets and sub-millisecond "
         "fractions). Encode: every valid date / time / datetime (years 1-9999, every microsecond or every "
-        "millisecond, zone naive / UTC / any whole-minute offset within +-14 h) through the real encoder and back "
+        "millisecond, zone naive / UTC / any whole-minute offset within +-14 h as a fixed-offset timezone and as a tzinfo whose offset "
+        "depends on the date, i.e. utcoffset(None) is None) through the real encoder and back "
         "through the same dialect's decoder: same type, same instant at the same precision, or ValueError. No bound "
         "on field values; the bound is structural (one temporal value, shapes listed). Quick omits "
         "every-microsecond x every-offset. Outside: unpadded spellings, dateutil forms (absent), sub-minute offsets.",
